@@ -146,6 +146,7 @@ func checkC07(c *Ctx) {
 	c12ScenariosRule(c, "R07j", func(fn, rule string) bool { return fn == "validateOneofFlatten" })
 	r.Rule("R07k", "codec collectors visit nested declarations unconditionally (shared with C04/R04i): a nested annotated message gets the codec that writes the declared TypeScript form", 14)
 	collectorRecursion(c, "R07k")
+	c07RootUnwrapPredicate(c)
 	c07Presence(c)
 }
 
@@ -551,4 +552,48 @@ func c07HandlerPropertyNames(c *Ctx, rid ...string) {
 	want := []string{"docId", "sectionNo"}
 	r.Check(strings.Join(got, ",") == strings.Join(want, ","), rule, "path variables {document_id (json_name docId), section_no} are bound to the properties docId, sectionNo", pos,
 		fmt.Sprintf("resolvePathParamFields yields the property names %v for the path variables {document_id (json_name \"docId\"), section_no}; the request interface declares %v: the handler receives the path value under an undeclared property and the declared one stays undefined", got, want))
+}
+
+// c07RootUnwrapPredicate — R07l. Both TS plugins declare an RPC's result as the bare array / record exactly when
+// annotations.IsRootUnwrap(message) holds; the Go server writes the bare value for a message whose single field carries
+// (sebuf.http.unwrap), repeated OR map. The predicate is interpreted on concrete messages.
+func c07RootUnwrapPredicate(c *Ctx) {
+	r := c.R
+	r.Rule("R07l", "the root-unwrap predicate the TS plugins use to declare an RPC's result as a bare array or record holds for a single unwrap field of either cardinality (repeated, map) and for nothing else", 5)
+	fn := c.P.Func("internal/annotations", "IsRootUnwrap")
+	if fn == nil {
+		r.Unres("R07l", "annotations.IsRootUnwrap", "", "not found")
+		return
+	}
+	pos := c.P.Pos(c.P.Decls[fn].Pos())
+	prev := c.W.Concrete
+	c.W.Concrete = true
+	defer func() { c.W.Concrete = prev }()
+	tru := VBool{B: true}
+	item := cMessage("Quote", fld("price", "double"))
+	entry := cMessage("QuotesEntry", fld("key", "string"), fld("value", "message").msg(item))
+	for _, sc := range []struct {
+		name string
+		msg  *VStruct
+		want bool
+	}{
+		{"single repeated field with unwrap", cMessage("R", fld("items", "message").msg(item).list().ann("HasUnwrapAnnotation", tru)), true},
+		{"single map field with unwrap", cMessage("M", fld("quotes", "message").msg(entry).mapf().ann("HasUnwrapAnnotation", tru)), true},
+		{"single repeated scalar field with unwrap", cMessage("S", fld("tags", "string").list().ann("HasUnwrapAnnotation", tru)), true},
+		{"unwrap field beside another field", cMessage("T", fld("items", "message").msg(item).list().ann("HasUnwrapAnnotation", tru), fld("next", "string")), false},
+		{"single repeated field without unwrap", cMessage("U", fld("items", "message").msg(item).list()), false},
+	} {
+		run := c.W.NewRun(map[string]int{}, false)
+		run.InlineAll, run.FollowSlices = true, true
+		run.CallHook = c.cdescHook
+		run.StartArgs(fn, map[string]Val{"message": sc.msg})
+		key := "IsRootUnwrap: " + sc.name
+		b, ok := run.Result.(VBool)
+		if !ok || len(run.Used) > 0 {
+			r.Undec("R07l", key, pos, fmt.Sprintf("result %T, open decisions %v", run.Result, usedKeys(run)))
+			continue
+		}
+		r.Check(b.B == sc.want, "R07l", key, pos,
+			fmt.Sprintf("IsRootUnwrap answers %v for a message with a %s: the TS client and server then declare the RPC's result as %s while the Go server writes %s", b.B, sc.name, map[bool]string{true: "the bare value", false: "the wrapper object"}[b.B], map[bool]string{true: "the bare array / record", false: "the wrapper object"}[sc.want]))
+	}
 }
